@@ -66,11 +66,23 @@ def short(path):
     return seg
 
 
+ADT_FIELDS = {}      # struct path -> field names (filled when a crate is loaded)
+
+
 def norm(e):
     """structural normal form used to compare two values for identity: strips refs everywhere"""
     e = strip_refs(e)
     k = e[0]
-    if k in ('field', 'downcast'):
+    if k == 'field':
+        b = norm(e[1])
+        # `Struct{a, b}.b` rebuilt outside Fn.project (captures substituted into a closure body): the component
+        if b[0] == 'agg' and b[1].startswith('adt:'):
+            flds = ADT_FIELDS.get(b[1][4:].rsplit('::', 1)[0]) if '::' in b[1][4:] else None
+            i = int(e[2]) if str(e[2]).isdigit() else (flds.index(e[2]) if flds and e[2] in flds else None)
+            if i is not None and i < len(b[2]) and (str(e[2]).isdigit() or flds):
+                return b[2][i]
+        return (k, b, e[2])
+    if k == 'downcast':
         return (k, norm(e[1]), e[2])
     if k == 'index':
         return (k, norm(e[1]), norm(e[2]))
@@ -166,6 +178,23 @@ def show(e, depth=0):
     return '%s' % (e,)
 
 
+def _local_adt(crate, name):
+    """`name` is a struct / enum defined in the analysed crate itself"""
+    adts = getattr(crate, 'adts', None) or {}
+    if name not in adts:
+        return False
+    if '::' not in name:
+        return True
+    mods = getattr(crate, '_local_mods', None)
+    if mods is None:
+        mods = {f['name'].split('::')[0] for f in crate.j.get('fns', []) if not f['name'].startswith('<')} if hasattr(crate, 'j') else set()
+        try:
+            crate._local_mods = mods
+        except AttributeError:
+            pass
+    return name.split('::')[0] in mods
+
+
 class Fn:
     def __init__(self, j, crate):
         self.j = j
@@ -242,6 +271,19 @@ class Fn:
                     pl = st['rv']['pl']
                     if not any(p['k'] == 'deref' for p in pl['p']) and SCALAR_TY.match(self.locals[pl['l']]['ty']):
                         self.mut_scalars.add(pl['l'])
+        # locals a *field* of which is borrowed mutably (or handed out as a raw pointer): a record that is updated in
+        # place — its literal is not the value of its fields later on
+        self.field_mut = set()
+        for bi, b in enumerate(self.blocks):
+            if bi not in self.reach:
+                continue
+            for st in b['stmts']:
+                if st['s'] == 'assign' and st['rv']['r'] in ('ref', 'rawptr') and st['rv'].get('mut', st['rv']['r'] == 'rawptr'):
+                    pl = st['rv']['pl']
+                    if pl['p'] and pl['p'][0]['k'] == 'field':
+                        self.field_mut.add(pl['l'])
+                    elif not pl['p'] and _local_adt(crate, self.locals[pl['l']]['ty'].split('<')[0]):
+                        self.field_mut.add(pl['l'])     # `&mut record` (a `&mut self` method spliced in): same thing
         self._expr_cache = {}
         self._dom = None
         self._pdom = None
@@ -580,9 +622,9 @@ class Fn:
 
     def place_expr(self, pl, at=None, depth=0):
         base = self.local_expr(pl['l'], at, depth)
-        return self.project(base, pl['p'], at, depth)
+        return self.project(base, pl['p'], at, depth, in_place=pl['l'] in self.field_mut)
 
-    def project(self, base, proj, at=None, depth=0):
+    def project(self, base, proj, at=None, depth=0, in_place=False):
         e = base
         for p in proj:
             k = p['k']
@@ -600,6 +642,8 @@ class Fn:
                     e = e[1][2][p['i']]     # (Variant{x, ..} as Variant).i is x
                 elif e[0] == 'agg' and e[1].startswith('closure:'):
                     e = e[2][p['i']] if p['i'] < len(e[2]) else ('field', e, nm)
+                elif e[0] == 'agg' and e[1].startswith('adt:') and p['i'] < len(e[2]) and not in_place:
+                    e = e[2][p['i']]        # Struct{a, b}.b is b (a struct literal: a variant's fields are read through a downcast)
                 elif self.is_closure and e == ('param', 1, self.local_name(1) or '') or (self.is_closure and e[0] == 'deref' and e[1][0] == 'param' and e[1][1] == 1):
                     e = ('upvar', p['i'], self.upvar_names.get(p['i'], ''))
                 else:
@@ -680,6 +724,12 @@ class Fn:
             e = ('var', l, self.local_name(l))
             self._expr_cache[l] = e
             return e
+        elif l in self.field_mut and ds[0][0] == 'assign' and ((ds[0][3]['r'] == 'agg' and ds[0][3]['kind'].get('k') == 'adt') or
+                                                                (ds[0][3]['r'] == 'use' and ds[0][3]['a'].get('o') == 'move' and not ds[0][3]['a']['pl']['p'])):
+            # a struct literal some field of which is later borrowed mutably: a record updated in place, not a value
+            e = ('var', l, self.local_name(l))
+            self._expr_cache[l] = e
+            return e
         self._expr_cache[l] = ('var', l, self.local_name(l))  # recursion guard
         kind, bi, si, x = ds[0]
         if kind == 'assign':
@@ -727,6 +777,18 @@ class Fn:
                 return ('fn', c['path'])
             if ck == 'promoted':
                 return self.promoted_expr(c['i'])
+            if ck == 'tyconst':
+                # a type-level constant (e.g. a float literal / `f64::INFINITY` used as a match pattern): `-Inf_f64`, `1.5_f64`
+                txt = str(c.get('s', ''))
+                if txt.startswith('const '):
+                    txt = txt[6:]
+                for suf in ('_f64', 'f64', '_f32', 'f32'):
+                    if txt.endswith(suf):
+                        try:
+                            return ('const', str(float(txt[:-len(suf)].lstrip('+'))), c['ty'])
+                        except ValueError:
+                            break
+                return ('const', None, c['ty'] + ':' + txt)
             return ('other', ck)
         if k in ('copy', 'move'):
             return self.place_expr(o['pl'], at, depth)
@@ -906,6 +968,9 @@ class Crate:
         self.is_bin = j['is_bin']
         self.is_test = j.get('is_test', False)
         self.adts = j['adts']
+        for k_, v_ in self.adts.items():
+            if len(v_) == 1:
+                ADT_FIELDS.setdefault(k_, list(v_[0].get('fields', [])))
         self.unsafe = j.get('unsafe', [])
         self.impls = j.get('impls', [])
         self.fns = {}
